@@ -86,7 +86,7 @@ MANIFEST = dict(
           'whole-buffer operations (set_channel_width, set_has_alpha, copy) are proved against memory for bounded canvas dimensions (<= 8/16 resp. < 8/32), reported as bounded.  Found and '
           'fixed: mask_blit(.., mask) let out_of_range escape when sx or sy > 0 (mask checked against w,h only).'),
     note=('Trusted: cbmc/goto-instrument/solvers, the extractor, the specification macros, the canonical accessor/helper models (stubs/C07_pixel_model.h; model |= contract is proved, the link to '
-          'memory is the shared clause macros).  Blend arithmetic is pinned to the commit (regression-strength); the floating-point part of draw_line's path (its integer part -- connected, max(|dx|,|dy|)+1 pixels from an end point -- is under contract), resize_blit, dashed/out-of-canvas line pixels and the composition of text cells into a whole text are '
+          'memory is the shared clause macros).  Blend arithmetic is pinned to the commit (regression-strength); the floating-point part of the draw_line path (its integer part -- connected, max(|dx|,|dy|)+1 pixels from an end point -- is under contract), resize_blit, dashed/out-of-canvas line pixels and the composition of text cells into a whole text are '
           'not decided (each text cell is: glyph pixels over the opaque background box, any cursor position).  Distinct source/mask/destination, stateless callbacks, successful allocation, int-counted variants up to INT_MAX-sized canvases are assumed.'),
     technique='function + nested loop contracts over a ghost pixel (goto-instrument --dfcc --apply-loop-contracts), clamp by a chain of ghost-flag lemmas, outlined arithmetic proved by SMT, '
               'bounded memory-level obligations for the index arithmetic',
